@@ -157,18 +157,29 @@ constexpr char const* kObsLabel[O_NUM] = {"obs:test(pos)", "obs:unchecked_test(p
 enum Op {
     // single bit
     S_SET1, S_SETV, S_RESET1, S_FLIP1, S_USET1, S_USETV, S_URESET, S_UFLIP, S_REF_ASSIGN, S_REF_ASSIGN_REF, S_REF_FLIP,
+    // chained single-bit expressions (every modifier must return *this / the proxy itself, not a copy)
+    C_SET_RESETP, C_RESET_SETP, C_FLIP_FLIPP, C_SETP_FLIPQ, C_RESETP_SETQV, C_FLIPP_RESETQ, C_REF_ASSIGN_FLIP, C_REF_FLIP_ASSIGN,
+    C_REF_CHAIN_ASSIGN,
     // whole set
     W_SET, W_RESET, W_FLIP, W_NOT, W_COPY,
+    // the same object on both sides
+    X_AND_A_SELF, X_OR_A_SELF, X_XOR_A_SELF, X_AND_SELF, X_OR_SELF, X_XOR_SELF,
     // binary
     B_AND_A, B_OR_A, B_XOR_A, B_AND, B_OR, B_XOR,
+    // chained binary expressions
+    C_ANDA_FLIP, C_ORA_XORA, C_XORA_ANDA,
     // shifts (only if provided)
     H_SHL_A, H_SHR_A, H_SHL, H_SHR,
     OP_NUM
 };
-constexpr char const* kOpLabel[OP_NUM] = {"set(pos)", "set(pos,val)", "reset(pos)", "flip(pos)", "unchecked_set(pos)",
+constexpr char const* kOpLabel[] = {"set(pos)", "set(pos,val)", "reset(pos)", "flip(pos)", "unchecked_set(pos)",
     "unchecked_set(pos,val)", "unchecked_reset(pos)", "unchecked_flip(pos)", "operator[]=bool", "operator[]=reference",
-    "operator[].flip()", "set()", "reset()", "flip()", "operator~", "operator=(copy)", "operator&=", "operator|=", "operator^=",
-    "operator&", "operator|", "operator^", "operator<<=", "operator>>=", "operator<<", "operator>>"};
+    "operator[].flip()", "chain:set().reset(pos)", "chain:reset().set(pos)", "chain:flip().flip(pos)", "chain:set(pos).flip(pos2)",
+    "chain:reset(pos).set(pos2,val)", "chain:flip(pos).reset(pos2)", "chain:(b[pos]=val).flip()", "chain:b[pos].flip()=val",
+    "chain:b[pos]=b[pos2]=val", "set()", "reset()", "flip()", "operator~", "operator=(copy)", "operator&=(self)", "operator|=(self)",
+    "operator^=(self)", "operator&(self,self)", "operator|(self,self)", "operator^(self,self)", "operator&=", "operator|=", "operator^=",
+    "operator&", "operator|", "operator^", "chain:(b&=x).flip()", "chain:(b|=x)^=x", "chain:(b^=x)&=x", "operator<<=", "operator>>=", "operator<<", "operator>>"};
+static_assert(sizeof(kOpLabel) / sizeof(kOpLabel[0]) == OP_NUM);
 
 constexpr unsigned kRoutes = 8;
 constexpr char const* kRouteLabel[kRoutes] = {"build:default+set-bits", "build:set()+reset-bits", "build:complement+flip()",
@@ -322,11 +333,29 @@ struct H {
         }
         fail(name, cls, obs, exp);
     }
+    // the result of a modifier, bound with auto&&-semantics: must be an lvalue of type E designating the object itself
     template <typename R>
-    void ret_is_self(R& r, E const& self)
+    void ret_is_self(R&& r, E const& self)
     {
         ++obs_n[O_RET];
-        if (static_cast<void const*>(&r) != static_cast<void const*>(&self)) { fail("ret", "not-*this", "other object", "*this"); }
+        if constexpr (!std::is_lvalue_reference_v<R> || !std::is_same_v<std::remove_cvref_t<R>, E> || std::is_const_v<std::remove_reference_t<R>>) {
+            fail("ret-type", "not-E&", "not an E&", "E&");
+        } else if (static_cast<void const*>(&r) != static_cast<void const*>(&self)) {
+            fail("ret", "not-*this", "other object", "*this");
+        }
+    }
+    // the result of a proxy modifier: an lvalue of the proxy type that still designates bit `pos` of e
+    template <typename R>
+    void ret_is_proxy(R&& r, bool expect)
+    {
+        using Ref = decltype(std::declval<E&>()[size_t(0)]);
+        ++obs_n[O_RET];
+        if constexpr (!std::is_lvalue_reference_v<R> || !std::is_same_v<std::remove_cvref_t<R>, std::remove_cvref_t<Ref>>) {
+            fail("ret-type", "not-reference&", "not a reference&", "reference&");
+        } else {
+            bool got = static_cast<bool>(r);
+            if (got != expect) { fail("ret(reference->bool)", got ? "true-for-false" : "false-for-true", got ? "true" : "false", expect ? "true" : "false"); }
+        }
     }
 
     // ---------------------------------------------------------------- single-bit primitives used by construction routes
@@ -538,6 +567,12 @@ struct H {
                     sub("!=near");
                     eqb(O_NE, "operator!=(other-value)", cx != f, true);
                 }
+                sub("==self");
+                eqb(O_EQ, "operator==(self)", cx == cx, true);
+                if constexpr (has_ne<E>) {
+                    sub("!=self");
+                    eqb(O_NE, "operator!=(self)", cx != cx, false);
+                }
                 sub("copy");
                 E c(cx);
                 sub("==copy");
@@ -592,7 +627,10 @@ struct H {
         case W_NOT: return has_not<E>;
         case B_AND:
         case B_OR:
-        case B_XOR: return has_band<E>;
+        case B_XOR:
+        case X_AND_SELF:
+        case X_OR_SELF:
+        case X_XOR_SELF: return has_band<E>;
         case H_SHL_A: return has_shl_assign<E>;
         case H_SHR_A: return has_shr_assign<E>;
         case H_SHL: return has_shl<E>;
@@ -600,8 +638,17 @@ struct H {
         default: return true;
         }
     }
-    static bool is_single(int op) { return op <= S_REF_FLIP; }
-    static bool is_binary(int op) { return op >= B_AND_A && op <= B_XOR; }
+    static bool is_single(int op) { return op <= C_REF_CHAIN_ASSIGN; }
+    static bool is_binary(int op) { return op >= B_AND_A && op <= C_XORA_ANDA; }
+    static bool needs_val(int op)
+    {
+        return op == S_SETV || op == S_USETV || op == S_REF_ASSIGN || op == C_RESETP_SETQV || op == C_REF_ASSIGN_FLIP || op == C_REF_FLIP_ASSIGN
+            || op == C_REF_CHAIN_ASSIGN;
+    }
+    static bool needs_pos2(int op)
+    {
+        return op == S_REF_ASSIGN_REF || op == C_SETP_FLIPQ || op == C_RESETP_SETQV || op == C_FLIPP_RESETQ || op == C_REF_CHAIN_ASSIGN;
+    }
     static bool is_shift(int op) { return op >= H_SHL_A; }
 
     // applies op to (e, m); model first, then breadcrumb, then tetl, then all observers
@@ -615,8 +662,8 @@ struct H {
         u64 argh = 0;
         if (is_single(op)) {
             std::snprintf(sit, sizeof sit, "%s,%s", stcls(before), poscls(a.p));
-            if (op == S_REF_ASSIGN_REF) {
-                std::snprintf(args, sizeof args, "pos=%zu from-pos=%zu", a.p, a.q);
+            if (needs_pos2(op)) {
+                std::snprintf(args, sizeof args, "pos=%zu pos2=%zu val=%d", a.p, a.q, (int)a.v);
             } else {
                 std::snprintf(args, sizeof args, "pos=%zu val=%d", a.p, (int)a.v);
             }
@@ -644,6 +691,15 @@ struct H {
         case S_FLIP1:
         case S_UFLIP:
         case S_REF_FLIP: m.flip(a.p); break;
+        case C_SET_RESETP: m.set().reset(a.p); break;
+        case C_RESET_SETP: m.reset().set(a.p); break;
+        case C_FLIP_FLIPP: m.flip().flip(a.p); break;
+        case C_SETP_FLIPQ: m.set(a.p).flip(a.q); break;
+        case C_RESETP_SETQV: m.reset(a.p).set(a.q, a.v); break;
+        case C_FLIPP_RESETQ: m.flip(a.p).reset(a.q); break;
+        case C_REF_ASSIGN_FLIP: (m[a.p] = a.v).flip(); break;
+        case C_REF_FLIP_ASSIGN: m[a.p].flip() = a.v; break;
+        case C_REF_CHAIN_ASSIGN: m[a.p] = m[a.q] = a.v; break;
         case S_REF_ASSIGN: m[a.p] = a.v; break;
         case S_REF_ASSIGN_REF: {
             bool t = m[a.q];
@@ -655,6 +711,27 @@ struct H {
         case W_FLIP: m.flip(); break;
         case W_NOT: m = ~m; break;
         case W_COPY: break;
+        case X_AND_A_SELF:
+        case X_AND_SELF: {
+            M const& alias = m;
+            m &= alias;
+            break;
+        }
+        case X_OR_A_SELF:
+        case X_OR_SELF: {
+            M const& alias = m;
+            m |= alias;
+            break;
+        }
+        case X_XOR_A_SELF:
+        case X_XOR_SELF: {
+            M const& alias = m;
+            m ^= alias;
+            break;
+        }
+        case C_ANDA_FLIP: (m &= *a.b).flip(); break;
+        case C_ORA_XORA: (m |= *a.b) ^= *a.b; break;
+        case C_XORA_ANDA: (m ^= *a.b) &= *a.b; break;
         case B_AND_A:
         case B_AND: m &= *a.b; break;
         case B_OR_A:
@@ -697,18 +774,76 @@ struct H {
             if constexpr (has_uflip<E>) { ret_is_self(e.unchecked_flip(a.p), e); }
             break;
         case S_REF_ASSIGN: {
-            bool r = static_cast<bool>(e[a.p] = a.v);
-            eqb(O_RET, "ret(reference->bool)", r, a.v);
+            auto ref = e[a.p];
+            ret_is_proxy(ref = a.v, (bool)m[a.p]);
             break;
         }
         case S_REF_ASSIGN_REF: {
-            bool r = static_cast<bool>(e[a.p] = e[a.q]);
-            eqb(O_RET, "ret(reference->bool)", r, (bool)m[a.p]);
+            auto ref = e[a.p];
+            ret_is_proxy(ref = e[a.q], (bool)m[a.p]);
             break;
         }
         case S_REF_FLIP: {
-            bool r = static_cast<bool>(e[a.p].flip());
-            eqb(O_RET, "ret(reference->bool)", r, (bool)m[a.p]);
+            auto ref = e[a.p];
+            ret_is_proxy(ref.flip(), (bool)m[a.p]);
+            break;
+        }
+        case C_SET_RESETP:
+            if constexpr (has_reset_pos<E>) {
+                ret_is_self(e.set().reset(a.p), e);
+            } else {
+                ret_is_self(e.set().unchecked_reset(a.p), e);
+            }
+            break;
+        case C_RESET_SETP:
+            if constexpr (has_set_pos<E>) {
+                ret_is_self(e.reset().set(a.p), e);
+            } else {
+                ret_is_self(e.reset().unchecked_set(a.p), e);
+            }
+            break;
+        case C_FLIP_FLIPP:
+            if constexpr (has_flip_pos<E>) {
+                ret_is_self(e.flip().flip(a.p), e);
+            } else {
+                ret_is_self(e.flip().unchecked_flip(a.p), e);
+            }
+            break;
+        case C_SETP_FLIPQ:
+            if constexpr (has_set_pos<E> && has_flip_pos<E>) {
+                ret_is_self(e.set(a.p).flip(a.q), e);
+            } else {
+                ret_is_self(e.unchecked_set(a.p).unchecked_flip(a.q), e);
+            }
+            break;
+        case C_RESETP_SETQV:
+            if constexpr (has_set_pos<E> && has_reset_pos<E>) {
+                ret_is_self(e.reset(a.p).set(a.q, a.v), e);
+            } else {
+                ret_is_self(e.unchecked_reset(a.p).unchecked_set(a.q, a.v), e);
+            }
+            break;
+        case C_FLIPP_RESETQ:
+            if constexpr (has_flip_pos<E> && has_reset_pos<E>) {
+                ret_is_self(e.flip(a.p).reset(a.q), e);
+            } else {
+                ret_is_self(e.unchecked_flip(a.p).unchecked_reset(a.q), e);
+            }
+            break;
+        case C_REF_ASSIGN_FLIP: {
+            auto ref = e[a.p];
+            ret_is_proxy((ref = a.v).flip(), (bool)m[a.p]);
+            break;
+        }
+        case C_REF_FLIP_ASSIGN: {
+            auto ref = e[a.p];
+            ret_is_proxy(ref.flip() = a.v, (bool)m[a.p]);
+            break;
+        }
+        case C_REF_CHAIN_ASSIGN: {
+            auto rp = e[a.p];
+            auto rq = e[a.q];
+            ret_is_proxy(rp = rq = a.v, (bool)m[a.p]);
             break;
         }
         case W_SET: ret_is_self(e.set(), e); break;
@@ -728,6 +863,45 @@ struct H {
             e = u;
             break;
         }
+        case X_AND_A_SELF: {
+            E const& alias = e;
+            ret_is_self(e &= alias, e);
+            break;
+        }
+        case X_OR_A_SELF: {
+            E const* alias = &e;
+            ret_is_self(e |= *alias, e);
+            break;
+        }
+        case X_XOR_A_SELF: {
+            E const& alias = e;
+            ret_is_self(e ^= alias, e);
+            break;
+        }
+        case X_AND_SELF:
+            if constexpr (has_band<E>) {
+                E const& ce = e;
+                E t         = ce & ce;
+                e           = t;
+            }
+            break;
+        case X_OR_SELF:
+            if constexpr (has_band<E>) {
+                E const& ce = e;
+                E t         = ce | ce;
+                e           = t;
+            }
+            break;
+        case X_XOR_SELF:
+            if constexpr (has_band<E>) {
+                E const& ce = e;
+                E t         = ce ^ ce;
+                e           = t;
+            }
+            break;
+        case C_ANDA_FLIP: ret_is_self((e &= *a.ob).flip(), e); break;
+        case C_ORA_XORA: ret_is_self((e |= *a.ob) ^= *a.ob, e); break;
+        case C_XORA_ANDA: ret_is_self((e ^= *a.ob) &= *a.ob, e); break;
         case B_AND_A: ret_is_self(e &= *a.ob, e); break;
         case B_OR_A: ret_is_self(e |= *a.ob, e); break;
         case B_XOR_A: ret_is_self(e ^= *a.ob, e); break;
@@ -846,7 +1020,15 @@ struct H {
     {
         if (zero == C('0') && one == C('1')) { return "chars=default"; }
         if (zero == C('1') && one == C('0')) { return "chars=swapped"; }
+        if (zero == C(0)) { return "chars=zero-is-NUL"; }
+        if (one == C(0)) { return "chars=one-is-NUL"; }
         return "chars=custom";
+    }
+    template <typename C>
+    static std::string chs(C c)
+    {
+        if (c == C(0)) { return "\\0"; }
+        return std::string(1, (c >= C(0x20) && c < C(0x7f)) ? (char)c : '?');
     }
     template <typename C>
     static C junk(C zero, C one, unsigned k)
@@ -894,8 +1076,8 @@ struct H {
                 vf::record("inconclusive", "harness:std-threw", ex.what(), "valid arguments");
                 return;
             }
-            crumbf(label, sit, "payload=%s P=%zu S=%zu n=%lld zero=%c one=%c form=%d", payload.c_str(), P, S,
-                n == npos ? -1LL : (long long)n, (char)zero, (char)one, form);
+            crumbf(label, sit, "payload=%s P=%zu S=%zu n=%lld zero=%s one=%s form=%d", payload.c_str(), P, S,
+                n == npos ? -1LL : (long long)n, chs(zero).c_str(), chs(one).c_str(), form);
             begin_step();
             SV sv(buf.data(), total);
             switch (form) {
@@ -909,27 +1091,33 @@ struct H {
             buf.check("string_view ctor source");
             vf::cover(label, vf::mix(vf::mix(cfgh, vf::fnv(payload.c_str())), vf::mix(P * 8 + S, (u64)nmode * 1000 + (u64)zero * 7 + (u64)one + (u64)form * 131)), true);
             if (vf::want_sample(label)) {
-                vf::sample(label, "%s(sv[%zu junk + '%s' + %zu junk], pos=%zu, n=%lld, '%c', '%c') -> %s", subj, P, payload.c_str(), S, P,
-                    n == npos ? -1LL : (long long)n, (char)zero, (char)one, m.to_string().c_str());
+                vf::sample(label, "%s(sv[%zu junk + '%s' + %zu junk], pos=%zu, n=%lld, '%s', '%s') -> %s", subj, P, payload.c_str(), S, P,
+                    n == npos ? -1LL : (long long)n, chs(zero).c_str(), chs(one).c_str(), m.to_string().c_str());
             }
             observe(e, m);
             if (end_step()) { resync(); }
         }
     }
-    // char const* constructor: [P junk skipped by the caller][L payload][S junk] NUL ; n: nmode 0 -> L, 1 -> npos (S==0)
+    // char const* constructor: [P junk skipped by the caller][L payload][S junk] [NUL] ; n: nmode 0 -> L, 1 -> npos (S==0).
+    // term == false (only with an explicit n): the exact-size block has NO terminator, so an implementation that
+    // measures the string instead of taking exactly n characters reads out of the block (std: basic_string(str, n)).
+    // zero or one may be the NUL character: then NULs lie inside the first n characters.
     template <typename C>
-    void ctor_cstr(std::string const& payload, size_t P, size_t S, int nmode, C zero, C one, int form)
+    void ctor_cstr(std::string const& payload, size_t P, size_t S, int nmode, C zero, C one, int form, bool term = true)
     {
         if constexpr (has_cstr_ctor<E, C>) {
             using SV       = etl::basic_string_view<C>;
             size_t const L = payload.size();
-            if (nmode != 0) { S = 0; }
-            size_t const total = P + L + S + 1;
+            if (nmode != 0) {
+                S    = 0;
+                term = true;
+            }
+            size_t const total = P + L + S + (term ? 1 : 0);
             vf::Buf<C> buf(total);
             for (size_t i = 0; i < P; ++i) { buf[i] = junk(zero, one, (unsigned)i); }
             for (size_t i = 0; i < L; ++i) { buf[P + i] = payload[i] == '1' ? one : zero; }
             for (size_t i = 0; i < S; ++i) { buf[P + L + i] = junk(zero, one, (unsigned)i + 1); }
-            buf[total - 1]    = C(0);
+            if (term) { buf[total - 1] = C(0); }
             size_t const npos = SV::npos;
             size_t n          = nmode == 0 ? L : npos;
             bool const dch    = zero == C('0') && one == C('1');
@@ -938,7 +1126,8 @@ struct H {
             if (form == 2 && one != C('1')) { form = 3; }
             char const* label = "ctor(char const*,n,zero,one)";
             char sit[96];
-            std::snprintf(sit, sizeof sit, "%s,%s,%s", lencls(L), n == npos ? "n=npos" : (S ? "n<strlen" : "n=strlen"), chcls(zero, one));
+            std::snprintf(sit, sizeof sit, "%s,%s,%s%s", lencls(L), n == npos ? "n=npos" : (S ? "n<strlen" : "n=strlen"), chcls(zero, one),
+                term ? "" : ",unterminated");
             C const* ptr = buf.data() + P;
             M nm;
             try {
@@ -948,8 +1137,8 @@ struct H {
                 vf::record("inconclusive", "harness:std-threw", ex.what(), "valid arguments");
                 return;
             }
-            crumbf(label, sit, "payload=%s S=%zu n=%lld zero=%c one=%c form=%d", payload.c_str(), S, n == npos ? -1LL : (long long)n,
-                (char)zero, (char)one, form);
+            crumbf(label, sit, "payload=%s S=%zu n=%lld zero=%s one=%s form=%d terminated=%d", payload.c_str(), S,
+                n == npos ? -1LL : (long long)n, chs(zero).c_str(), chs(one).c_str(), form, (int)term);
             begin_step();
             switch (form) {
             case 0: e = E(ptr); break;
@@ -959,10 +1148,10 @@ struct H {
             }
             m = nm;
             buf.check("char const* ctor source");
-            vf::cover(label, vf::mix(vf::mix(cfgh, vf::fnv(payload.c_str())), vf::mix(S, (u64)nmode * 1000 + (u64)zero * 7 + (u64)one + (u64)form * 131)), true);
+            vf::cover(label, vf::mix(vf::mix(cfgh, vf::fnv(payload.c_str())), vf::mix(S + (term ? 0 : 64), (u64)nmode * 1000 + (u64)zero * 7 + (u64)one + (u64)form * 131)), true);
             if (vf::want_sample(label)) {
-                vf::sample(label, "%s('%s'+%zu junk, n=%lld, '%c', '%c') -> %s", subj, payload.c_str(), S, n == npos ? -1LL : (long long)n,
-                    (char)zero, (char)one, m.to_string().c_str());
+                vf::sample(label, "%s('%s'+%zu junk%s, n=%lld, '%s', '%s') -> %s", subj, payload.c_str(), S, term ? "+NUL" : " (no terminator)",
+                    n == npos ? -1LL : (long long)n, chs(zero).c_str(), chs(one).c_str(), m.to_string().c_str());
             }
             observe(e, m);
             if (end_step()) { resync(); }
@@ -985,7 +1174,7 @@ struct H {
         struct CP {
             C z, o;
         };
-        CP const chars[3] = {{C('0'), C('1')}, {C('A'), C('B')}, {C('1'), C('0')}};
+        CP const chars[5] = {{C('0'), C('1')}, {C('A'), C('B')}, {C('1'), C('0')}, {C(0), C('1')}, {C('0'), C(0)}};
         std::vector<size_t> lens;
         if (long_only) {
             lens = {N + 1, N + 3};
@@ -1024,6 +1213,7 @@ struct H {
                             if (form == 1 && !dch) { continue; }
                             if (form == 2 && cp.o != C('1')) { continue; }
                             ctor_cstr<C>(pl, S ? 1 : 0, S, nmode, cp.z, cp.o, form);
+                            if (nmode == 0) { ctor_cstr<C>(pl, S ? 1 : 0, S, nmode, cp.z, cp.o, form, false); } // exactly n characters, no NUL
                         }
                     }
                 }
@@ -1147,40 +1337,33 @@ struct H {
             m = a;
         };
         // single-bit operations x every position
-        for (int op = 0; op <= S_REF_FLIP; ++op) {
+        for (int op = 0; op <= C_REF_CHAIN_ASSIGN; ++op) {
             if (!supported(op)) { continue; }
             for (size_t p = 0; p < N; ++p) {
-                Arg ar;
-                ar.p = p;
-                if (op == S_SETV || op == S_USETV || op == S_REF_ASSIGN) {
-                    for (int v = 0; v < 2; ++v) {
+                std::vector<size_t> qs{0};
+                if (needs_pos2(op)) {
+                    qs.clear();
+                    if constexpr (small) {
+                        for (size_t q = 0; q < N; ++q) { qs.push_back(q); }
+                    } else {
+                        qs = {0, N - 1, (p + 1) % N, (p + WB) % N, (p + N - 8) % N, p};
+                    }
+                }
+                for (size_t q : qs) {
+                    for (int v = 0; v < (needs_val(op) ? 2 : 1); ++v) {
+                        Arg ar;
+                        ar.p = p;
+                        ar.q = q;
                         ar.v = v != 0;
                         from_base();
                         step(op, ar);
                     }
-                } else if (op == S_REF_ASSIGN_REF) {
-                    if constexpr (small) {
-                        for (size_t q = 0; q < N; ++q) {
-                            ar.q = q;
-                            from_base();
-                            step(op, ar);
-                        }
-                    } else {
-                        size_t const qs[5] = {0, N - 1, (p + 1) % N, (p + WB) % N, (p + N - 8) % N};
-                        for (size_t q : qs) {
-                            ar.q = q;
-                            from_base();
-                            step(op, ar);
-                        }
-                    }
-                } else {
-                    from_base();
-                    step(op, ar);
                 }
             }
         }
         // whole-set operations
-        for (int op = W_SET; op <= W_COPY; ++op) {
+        for (int op = W_SET; op <= X_XOR_SELF; ++op) {
+            if (!supported(op)) { continue; }
             from_base();
             step(op, Arg{});
             // and twice in a row (flip().flip(), set().set(), ...)
@@ -1193,7 +1376,7 @@ struct H {
             Arg ar;
             ar.b  = &b;
             ar.ob = &ob;
-            for (int op = B_AND_A; op <= B_XOR; ++op) {
+            for (int op = B_AND_A; op <= C_XORA_ANDA; ++op) {
                 from_base();
                 step(op, ar);
             }
@@ -1266,20 +1449,23 @@ struct H {
                         size_t P       = (size_t)r.below(4);
                         size_t S       = (size_t)r.below(4);
                         int nmode      = (int)r.below(3);
-                        int cs         = (int)r.below(3);
+                        int cs         = (int)r.below(5);
+                        bool term      = r.below(3) != 0;
                         int form       = (int)r.below(5);
                         bool cstr      = pick - ops.size() == 2;
                         if (r.below(4) == 0) {
-                            wchar_t z = cs == 0 ? L'0' : (cs == 1 ? L'-' : L'1'), o = cs == 0 ? L'1' : (cs == 1 ? L'+' : L'0');
+                            wchar_t const zs[5] = {L'0', L'-', L'1', L'\0', L'0'}, os[5] = {L'1', L'+', L'0', L'1', L'\0'};
+                            wchar_t z = zs[cs], o = os[cs];
                             if (cstr) {
-                                ctor_cstr<wchar_t>(pl, P, S, nmode % 2, z, o, form % 4);
+                                ctor_cstr<wchar_t>(pl, P, S, nmode % 2, z, o, form % 4, term);
                             } else {
                                 ctor_sv<wchar_t>(pl, P, S, nmode, z, o, form);
                             }
                         } else {
-                            char z = cs == 0 ? '0' : (cs == 1 ? '.' : '1'), o = cs == 0 ? '1' : (cs == 1 ? '#' : '0');
+                            char const zs[5] = {'0', '.', '1', '\0', '0'}, os[5] = {'1', '#', '0', '1', '\0'};
+                            char z = zs[cs], o = os[cs];
                             if (cstr) {
-                                ctor_cstr<char>(pl, P, S, nmode % 2, z, o, form % 4);
+                                ctor_cstr<char>(pl, P, S, nmode % 2, z, o, form % 4, term);
                             } else {
                                 ctor_sv<char>(pl, P, S, nmode, z, o, form);
                             }
